@@ -615,9 +615,9 @@ func main() {
 		scs = append(scs, &vrt.Scenario{
 			Name: v.name, Prop: "C04", Doc: fmt.Sprintf("BFS over API histories on two instances of one workflow living side by side on one host (detectors TST / user-supplied TRG); reuseUnlockedTasks=%v", v.reuse),
 			Direct: func(r *vrt.DirectReport, tier string) {
-				depth := 4
+				depth := 6
 				if tier == "thorough" {
-					depth = 6
+					depth = 8
 				}
 				res := vrt.BFS(vrt.BFSSpec{Ops: opsShared, MaxDepth: depth, Exec: execHistoryOn(opsShared, v.reuse)})
 				res.Report(r, "api")
